@@ -343,6 +343,28 @@ def guarded(fn, *a):
 
 
 # ------------------------------------------------------------------ cases, verdict
+class JumpyClock:
+    """While active, every clock of the `time` module jumps ahead by several seconds per reading: code specified as a
+    function of its input bytes alone (parsers, codecs) must not care. Restored on exit."""
+    NAMES = ('time', 'monotonic', 'perf_counter')
+
+    def __enter__(self):
+        self.saved = {n: getattr(time, n) for n in self.NAMES + tuple(n + '_ns' for n in self.NAMES)}
+        self.t = 1_000_000.0
+
+        def tick():
+            self.t += 2.75
+            return self.t
+        for n in self.NAMES:
+            setattr(time, n, tick)
+            setattr(time, n + '_ns', lambda: int(tick() * 1e9))
+        return self
+
+    def __exit__(self, *a):
+        for n, f in self.saved.items():
+            setattr(time, n, f)
+
+
 class Case:
     __slots__ = ('comp', 'cmd', 'impl', 'domain', 'desc', 'nontrivial', 'kind', 'proj')
 
